@@ -5,6 +5,7 @@ import GoSSE.Gen.Unmarshal
 import GoSSE.Gen.Write
 import GoSSE.Proofs.GenEquivWrite
 import GoSSE.Proofs.GenEquivFieldRoutes
+import GoSSE.Proofs.GenEquivUpgrade
 /-!
 Ops that run the *translated* replayers (`GoSSE/Gen/Replay.lean`: `FiniteReplayer.Put/Replay`, `ValidReplayer.Put/GC/Replay`
 with `ensureID`, `findIDInQueue`, `queue.each` …, regenerated from /repo's replay.go on every run) over whole histories:
@@ -268,6 +269,21 @@ def gfld (args : List String) : String × String :=
     match Gen.messageField_UnmarshalJSON ((dec.getD []).length + 10) prevG (unhex arg1) (fun _ => dec) with
     | .error e => (showFault e, hand)
     | .ok r => (out r gj, hand)
+  else if route == "hdr" then
+    -- `hdr <c|l|s> <hexlist>`: sse.Upgrade as translated, over a request whose header map holds the values under the
+    -- canonical key (c: assigned as they are; s: added one by one, nothing when there are none) or under a
+    -- non-canonical one (l: a map assignment that bypasses net/http's canonicalisation)
+    let vals := unhexList arg2
+    let key : Bytes := if arg1 == "l" then "last-event-id".toUTF8.toList else GenEquiv.lastEventIdKey
+    let hdr : List (Bytes × List Bytes) := if arg1 == "s" && vals.isEmpty then [] else [(key, vals)]
+    let rw : ResW Unit := ⟨(), fun _ p => (p.length, none, ()), fun _ => (none, ()), fun _ _ _ => ()⟩
+    let req : HttpReq := ⟨.nil, none, 0, hdr⟩
+    match Gen.Upgrade (1000 + (vals.headD []).length) 0 req (fun _ => some rw) with
+    | .error e => (showFault e, hand)
+    | .ok r =>
+      match r.1 with
+      | none => ("UPGRADE-FAILED", hand)
+      | some sess => (out (none, sess.LastEventID.messageField) "", hand)
   else ("bad-route", "bad-route")
 
 def handle (op : String) (args : List String) : Option (String × String) :=
